@@ -77,3 +77,29 @@ claim("C05", "fault_enumeration",
       "Handlers run with a nil pool (a panic inside a pool worker would look the same to the user but is not separately observed). Memory and time are measured, not modelled. Byte strings off the malformation lattice are sampled.",
       "TLC-enumerated malformation catalogue (FaultCat.tla) delivered to real handlers in isolated processes + trace validation against Handler.tla",
       "DESIGN.md §5 C05")
+
+_KL = "KeyLife.tla models key material through its life over exact GF(7) arithmetic (Shamir.tla): key generation, refresh, derivation, store/restore and a final probe (signing session or reconstruction) in which every participant uses SOME version of the material it still holds; TLC checks after every operation that every version is a consistent sharing of its key and prints every complete history with the expected outcome. ShamirLaws.tla checks the underlying laws exhaustively (every identifier set, threshold, polynomial and subset in GF(5)/GF(7), n<=4). "
+
+claim("C01", "model_checking",
+      _KL + "For C01 the histories ending in a signing session with consistent material (fresh, refreshed, derived; every signer subset incl. non-prefix ones; undersized sets) are run on the real protocols (FROST, Taproot, Doerner; CMP sign and presign+online from trusted-dealer material) under random schedules with digests of 1/20/32/33/64 bytes: every returned signature is judged by an independent math/big ECDSA / Schnorr / BIP-340 verifier under the key fixed at key generation, all signers must return the same signature, and the all-honest session must complete (delivery-order completeness of the handler itself is C07's model).",
+      "Trusted: TLC, the independent verifiers of package oracle (cross-tested against BIP-340 vectors). Validity is judged per returned signature; nothing is claimed about unforgeability.",
+      "TLC model checking of KeyLife.tla/ShamirLaws.tla + replay of enumerated histories on real signing protocols with independent verifiers",
+      "DESIGN.md §3.5, §5 C01")
+
+claim("C02", "model_checking",
+      _KL + "For C02 the keygen-only histories with every reconstruction subset are run for every (n<=4, t) (n=5 in the thorough tier) and several identifier shapes (short, 32/40-byte, non-ASCII, leading zero byte) on the REAL key generation of FROST, Taproot, Doerner and CMP (verif prime-source hook) under random schedules, and judged with independent arithmetic: same group key, public table and auxiliary keys at all parties; own secret share matches own table entry; every t+1 subset of shares and of table entries yields the group key; t shares do not.",
+      "Trusted: TLC, independent math/big secp256k1 and Lagrange interpolation. Randomness quality and Paillier/Pedersen parameter soundness are not judged.",
+      "TLC model checking of ShamirLaws.tla/KeyLife.tla + replay on real key generation with independent interpolation",
+      "DESIGN.md §3.5, §5 C02")
+
+claim("C08", "model_checking",
+      _KL + "For C08 the histories containing refreshes (interleaved with derivations and store/restore), with EVERY way of mixing held versions in the final signing or reconstruction set, are run on real CMP, FROST, Taproot and Doerner: group key unchanged, new material satisfies the key-generation conditions, every secret share changed, a new share mixed with old ones does not give the key, signing with refreshed material succeeds, and a session in which some signer uses stale material returns no signature that is valid under any version's key.",
+      "Old material is captured by deep copies before the refresh. Negative statements (mixed shares do not reconstruct) hold with overwhelming probability and are asserted on the real 256-bit values only.",
+      "TLC model checking of KeyLife.tla/ShamirLaws.tla + replay of enumerated histories (incl. stale-material mixes) on real protocols",
+      "DESIGN.md §3.5, §5 C08")
+
+claim("C14", "model_checking",
+      _KL + "For C14 the histories containing derivations (paths up to length 2-3, boundary and random indices, interleaved with refresh and store/restore) are run on real CMP, FROST, Taproot and Doerner material: after key generation every party holds the same 32-byte chain key; after each derivation the child public key and chain code of every party equal an independent BIP-32 CKDpub (HMAC-SHA512, math/big secp256k1, even-Y rule for Taproot); the derived shares satisfy the key-generation conditions; signing with derived material yields a valid signature under the child key; derivation is repeated on derived material.",
+      "Trusted: TLC, the independent BIP-32 / secp256k1 implementation.",
+      "TLC model checking of KeyLife.tla/ShamirLaws.tla + replay of enumerated derivation histories with an independent BIP-32 oracle",
+      "DESIGN.md §3.5, §5 C14")
